@@ -1,4 +1,4 @@
 From Coq Require Import String List Bool Arith Extraction ExtrOcamlBasic.
 From TP Require Import gen.C18Tables Model.Control Spec.C18 Spec.C18Judge.
 Extraction Language OCaml.
-Extraction "../.cache/ml/c18_model.ml" handle dispatch_kinds judge_request judge_garbled.
+Extraction "../.cache/ml/c18_model.ml" handle dispatch_kinds judge_request judge_garbled gate_admin_key admin_effect.
